@@ -14,8 +14,8 @@
 EXTENDS Overlay, Json, IOUtils
 Rec == ndJsonDeserialize(IOEnv.TRACE)
 
-VARIABLES l, hasUpper, B, fresh, view, lowers, upraw, preup, digests, exp, lastop, div, nfail, overwh
-vars == <<l, hasUpper, B, fresh, view, lowers, upraw, preup, digests, exp, lastop, div, nfail, overwh>>
+VARIABLES l, hasUpper, B, fresh, view, lowers, upraw, preup, digests, exp, lastop, div, nfail, overwh, pview
+vars == <<l, hasUpper, B, fresh, view, lowers, upraw, preup, digests, exp, lastop, div, nfail, overwh, pview>>
 
 Viol(sig, detail) == PrintT(<<"VIOL", sig, l, detail>>)
 Markers == {"trusted.overlay.opaque", "user.overlay.opaque", "user.fuseoverlayfs.opaque"}
@@ -68,7 +68,7 @@ Resync(logged, base) ==
 
 Init == /\ l = 1 /\ hasUpper = TRUE /\ B = 1 /\ fresh = TRUE /\ view = EmptyTree /\ lowers = <<>>
         /\ upraw = EmptyTree /\ preup = EmptyTree /\ digests = [k \in 1..4 |-> ""]
-        /\ exp = Free(EmptyTree) /\ lastop = [op |-> "init", p |-> <<>>, st |-> 0, src |-> <<>>, ow |-> FALSE] /\ div = {} /\ nfail = 0 /\ overwh = {}
+        /\ exp = Free(EmptyTree) /\ lastop = [op |-> "init", p |-> <<>>, st |-> 0, src |-> <<>>, ow |-> FALSE] /\ div = {} /\ nfail = 0 /\ overwh = {} /\ pview = EmptyTree
 
 Layers == IF hasUpper THEN <<upraw>> \o lowers ELSE lowers
 
@@ -108,6 +108,20 @@ CheckRestarted(rows) ==
      ELSE IF lastop.op # "init" /\ (Related(lastop.p, div) \/ (lastop.src # <<>> /\ Related(lastop.src, div))) THEN TRUE
      ELSE Viol(Sig("C11", "restart-differs-" \o DiffKind(R, V)), <<lastop, [p \in new |-> [restarted |-> R[p], live |-> V[p]]]>>)
 
+\* C11, copy-up clause: an entry that was visible before the operation, had no entry in the upper layer
+\* and has one afterwards was copied up; it must show the type, permission bits, content and link target
+\* the A view gives it (its prior state plus the operation's own modification) - xattrs are not part of the clause
+CuProj(n) == [t |-> n.t, m |-> IF n.t = "sym" THEN 0 ELSE n.m, c |-> n.c, tg |-> n.tg]
+CheckCopyUp(newup) ==
+  LET want == IF lastop.st = 0 THEN exp.v ELSE pview
+      copied == {q \in Paths : preup[q].t = "none" /\ newup[q].t \notin {"none", "wh"} /\ pview[q].t # "none"}
+      bad == {q \in copied : CuProj(view[q]) # CuProj(want[q])}
+      F(f) == \E q \in bad : CuProj(view[q])[f] # CuProj(want[q])[f]
+      kind == (IF F("t") THEN "t" ELSE "") \o (IF F("m") THEN "m" ELSE "") \o (IF F("c") THEN "c" ELSE "") \o (IF F("tg") THEN "g" ELSE "")
+  IN IF bad = {} THEN TRUE
+     ELSE IF Related(lastop.p, div) \/ (lastop.src # <<>> /\ Related(lastop.src, div)) THEN TRUE
+     ELSE Viol(Sig("C11", "copy-up-" \o kind), <<lastop, [q \in bad |-> [shown |-> CuProj(view[q]), expected |-> CuProj(want[q])]]>>)
+
 CheckLower(r) ==
   IF digests[r.k] = "" \/ digests[r.k] = r.digest THEN TRUE
   ELSE Viol(Sig("C10", "lower-changed"), <<lastop, r.k>>)
@@ -120,31 +134,32 @@ Step ==
      CASE r.e = "Reset" ->
             /\ hasUpper' = r.upper /\ B' = r.B /\ fresh' = TRUE /\ view' = EmptyTree /\ lowers' = <<>>
             /\ upraw' = EmptyTree /\ preup' = EmptyTree /\ digests' = [k \in 1..4 |-> ""]
-            /\ exp' = Free(EmptyTree) /\ lastop' = [op |-> "init", p |-> <<>>, st |-> 0, src |-> <<>>, ow |-> FALSE] /\ div' = {} /\ nfail' = 0 /\ overwh' = {}
+            /\ exp' = Free(EmptyTree) /\ lastop' = [op |-> "init", p |-> <<>>, st |-> 0, src |-> <<>>, ow |-> FALSE] /\ div' = {} /\ nfail' = 0 /\ overwh' = {} /\ pview' = EmptyTree
        [] r.e = "Layers" ->
             /\ lowers' = [k \in DOMAIN r.lowers |-> TreeOf(r.lowers[k], TRUE)]
             /\ upraw' = TreeOf(r.upper, TRUE)
-            /\ UNCHANGED <<hasUpper, B, fresh, view, preup, digests, exp, lastop, div, nfail, overwh>>
+            /\ UNCHANGED <<hasUpper, B, fresh, view, preup, digests, exp, lastop, div, nfail, overwh, pview>>
        [] r.e = "BuildError" ->
             /\ TRUE = Viol("C10|init|build-error|initial", r)
-            /\ UNCHANGED <<hasUpper, B, fresh, view, lowers, upraw, preup, digests, exp, lastop, div, nfail, overwh>>
+            /\ UNCHANGED <<hasUpper, B, fresh, view, lowers, upraw, preup, digests, exp, lastop, div, nfail, overwh, pview>>
        [] r.e = "View" ->
             /\ TRUE = (IF fresh THEN CheckInitialView(r.rows) ELSE CheckView(r.rows, lastop.st))
             /\ view' = IF ~RowsOK(r.rows) THEN view
                        ELSE IF fresh THEN TreeOf(r.rows, FALSE)
                        ELSE Resync(TreeOf(r.rows, FALSE), IF lastop.st = 0 /\ lastop.op # "rename" THEN exp.v ELSE view)
-            /\ UNCHANGED <<hasUpper, B, fresh, lowers, upraw, preup, digests, exp, lastop, div, nfail, overwh>>
+            /\ UNCHANGED <<hasUpper, B, fresh, lowers, upraw, preup, digests, exp, lastop, div, nfail, overwh, pview>>
        [] r.e = "Restarted" ->
             /\ TRUE = CheckRestarted(r.rows)
             /\ div' = IF RowsOK(r.rows) THEN DiffPaths(ProjView(TreeOf(r.rows, FALSE)), ProjView(view)) ELSE div
-            /\ UNCHANGED <<hasUpper, B, fresh, view, lowers, upraw, preup, digests, exp, lastop, nfail, overwh>>
+            /\ UNCHANGED <<hasUpper, B, fresh, view, lowers, upraw, preup, digests, exp, lastop, nfail, overwh, pview>>
        [] r.e = "Lower" ->
             /\ TRUE = CheckLower(r)
             /\ digests' = IF digests[r.k] = "" THEN [digests EXCEPT ![r.k] = r.digest] ELSE digests
-            /\ UNCHANGED <<hasUpper, B, fresh, view, lowers, upraw, preup, exp, lastop, div, nfail, overwh>>
+            /\ UNCHANGED <<hasUpper, B, fresh, view, lowers, upraw, preup, exp, lastop, div, nfail, overwh, pview>>
        [] r.e = "UpperRaw" ->
+            /\ TRUE = (IF fresh \/ lastop.op \in {"init", "rename"} THEN TRUE ELSE CheckCopyUp(TreeOf(r.rows, TRUE)))
             /\ upraw' = TreeOf(r.rows, TRUE) /\ fresh' = FALSE
-            /\ UNCHANGED <<hasUpper, B, view, lowers, preup, digests, exp, lastop, div, nfail, overwh>>
+            /\ UNCHANGED <<hasUpper, B, view, lowers, preup, digests, exp, lastop, div, nfail, overwh, pview>>
        [] r.e = "Op" ->
             /\ preup' = upraw
             /\ exp' = AOp(view, OpOf(r), hasUpper, <<"n", ToString(l)>>)
@@ -156,11 +171,12 @@ Step ==
                           ELSE IF r.op = "mkdir" /\ TopLower(lowers, r.p) \in {"file", "dir", "odir", "sym", "fifo"} THEN overwh \cup {r.p}
                           ELSE IF r.op \in {"rmdir", "unlink", "mkdir"} THEN {q \in overwh : q # r.p /\ ~IsAncestor(r.p, q)}
                           ELSE overwh
+            /\ pview' = view
             /\ UNCHANGED <<hasUpper, B, fresh, view, lowers, upraw, digests, div>>
-       [] OTHER -> /\ TRUE = Viol("C10|event|unknown|-", r) /\ UNCHANGED <<hasUpper, B, fresh, view, lowers, upraw, preup, digests, exp, lastop, div, nfail, overwh>>
+       [] OTHER -> /\ TRUE = Viol("C10|event|unknown|-", r) /\ UNCHANGED <<hasUpper, B, fresh, view, lowers, upraw, preup, digests, exp, lastop, div, nfail, overwh, pview>>
   /\ l' = l + 1
 Done == l = Len(Rec) + 1 /\ PrintT(<<"ACCEPTED", Len(Rec)>>) /\ l' = l + 1
-        /\ UNCHANGED <<hasUpper, B, fresh, view, lowers, upraw, preup, digests, exp, lastop, div, nfail, overwh>>
+        /\ UNCHANGED <<hasUpper, B, fresh, view, lowers, upraw, preup, digests, exp, lastop, div, nfail, overwh, pview>>
 Next == Step \/ Done
 Spec == Init /\ [][Next]_vars
 =============================================================================
